@@ -257,4 +257,107 @@ Proof.
   replace (k5 + (k4 + (k3 + (k2 + (k1 + 0)))) + (o - (k5 + (k4 + (k3 + (k2 + (k1 + 0))))))) with o by lia.
   destruct rq; reflexivity.
 Qed.
+
+(* after the code: SP reason | line end *)
+Lemma after_code_agree : forall ms buf k c,
+  bytes_ok buf -> rest c = skipn k buf ->
+  agree (after_code ms (S (length buf)) c) (ref_after_code ms (apos c) (rest c)).
+Proof.
+  intros ms buf k [p t l] Hb Hr. cbn [rest apos tokrev pre] in *. subst l.
+  set (fuel := S (length buf)).
+  unfold after_code, ref_after_code. unfold apos. cbn [tokrev pre].
+  destruct (skipn k buf) as [|b r] eqn:Es; [reflexivity|].
+  assert (Hr' : r = skipn (S k) buf).
+  { replace (S k) with (k + 1) by lia. rewrite <- skipn_add, Es. reflexivity. }
+  unfold bind at 1. unfold next at 1. cbn [rest pre tokrev]. unfold SP, CR, LF.
+  destruct (is 32 b) eqn:E32.
+  - assert (E13 : is 13 b = false) by (apply is_eq in E32; subst; reflexivity).
+    (* optional spaces, commit, reason *)
+    pose proof (ref_spaces_adv ms (S (length t + p)) r) as A.
+    destruct ms.
+    + pose proof (skip_spaces_agree fuel r (b :: t) p) as Hs. cbn [length] in Hs.
+      replace (S (length t) + p) with (S (length t + p)) in Hs by lia.
+      destruct (good_skipn buf (S k) Hb) as [Hb1 Hl1]. rewrite <- Hr' in *.
+      specialize (Hs Hl1). unfold bind at 1. unfold skip_spaces.
+      destruct (ref_spaces true (S (length t + p)) r) as [u o l| |e]; cbn [agree rbind] in *; rewrite Hs;
+        [|reflexivity|reflexivity].
+      destruct A as [k' (Hk' & -> & ->)]. rewrite Hr', skipn_add.
+      destruct (good_skipn buf (S k + k') Hb) as [Hb2 Hl2].
+      unfold bind at 1. unfold slice at 1. cbn [pre tokrev rest commit length Nat.add].
+      apply parse_reason_agree; assumption.
+    + cbn [ref_spaces rbind]. unfold bind at 1. unfold ret at 1.
+      unfold bind at 1. unfold slice at 1. cbn [pre tokrev rest commit length].
+      destruct (good_skipn buf (S k) Hb) as [Hb1 Hl1]. rewrite <- Hr' in *.
+      replace (S (length t) + p) with (S (length t + p)) by lia.
+      apply parse_reason_agree; assumption.
+  - destruct (is 13 b) eqn:E13.
+    + cbn [orb]. unfold ref_eol. rewrite E13.
+      destruct r as [|b2 r2]; [fin|].
+      destruct (is 10 b2) eqn:E10; [|fin]. mrun. f_equal; f_equal; lia.
+    + destruct (is 10 b) eqn:E10.
+      * cbn [orb]. unfold ref_eol. rewrite E13, E10. mrun. f_equal; f_equal; lia.
+      * fin.
+Qed.
+
+Theorem response_core_ref : forall cf buf rp arr, bytes_ok buf ->
+  response_core E cf buf rp arr = resp_result rp arr (ref_response cf (length arr) buf).
+Proof.
+  intros cf buf rp arr Hb. unfold response_core, ref_response, ref_status_line, resp_result.
+  set (fuel := S (length buf)). set (ms := allow_multiple_spaces_in_response_status_delimiters cf).
+  (* leading empty lines, version *)
+  assert (H1 : agree_nc ((skip_empty_lines fuel;;; parse_version) (cur_new buf))
+                        (rbind (ref_empty_lines 0 buf) (fun _ o l => ref_version o l))).
+  { unfold bind, cur_new, skip_empty_lines.
+    pose proof (skip_empty_lines_agree fuel buf [] 0 ltac:(unfold fuel; lia)) as H. cbn [length Nat.add] in H.
+    destruct (ref_empty_lines 0 buf) as [u o l| |e]; cbn [agree agree_nc rbind] in *; rewrite H; [|reflexivity|reflexivity].
+    apply (parse_version_agree (mkcur o [] l)). }
+  assert (A1 : advances0 0 buf (rbind (ref_empty_lines 0 buf) (fun _ o l => ref_version o l))).
+  { apply rbind_adv0; [apply (ref_empty_lines_adv (length buf)); lia|].
+    intros a o r _. apply advances_weaken. apply ref_version_adv. }
+  destruct (rbind (ref_empty_lines 0 buf) _) as [v o1 l1| |e1]; cbn [agree_nc] in H1;
+    [|rewrite H1; cbn [stage]; destruct rp; reflexivity|rewrite H1; cbn [stage]; destruct rp; reflexivity].
+  destruct H1 as [c1 (H1 & Hp1 & Hr1)]. rewrite H1. cbn [stage].
+  destruct A1 as [k1 (Hk1 & -> & ->)].
+  (* SP, spaces, code *)
+  assert (H2 : agree_nc ((space Version;;; (if ms then skip_spaces fuel else ret tt);;; parse_code) c1)
+                 (rbind (rbind (ref_sp Version (k1 + 0) (skipn k1 buf)) (fun _ o l => ref_spaces ms o l))
+                        (fun _ o l => ref_code o l))).
+  { unfold bind at 1. pose proof (space_agree Version c1) as Hs. rewrite Hp1, Hr1 in Hs.
+    pose proof (ref_sp_adv Version (k1 + 0) (skipn k1 buf)) as As.
+    destruct (ref_sp Version (k1 + 0) (skipn k1 buf)) as [u o l| |e]; cbn [agree rbind] in *; rewrite Hs;
+      [|reflexivity|reflexivity].
+    destruct As as [k (_ & Hk & -> & ->)]. rewrite skipn_add.
+    destruct (good_skipn buf (k1 + k) Hb) as [Hb' Hl'].
+    unfold bind. destruct ms.
+    - pose proof (skip_spaces_agree fuel _ [] (k + (k1 + 0)) Hl') as Hss. cbn [length Nat.add] in Hss.
+      unfold skip_spaces.
+      destruct (ref_spaces true _ _) as [u' o' l'| |e']; cbn [agree agree_nc rbind] in *; rewrite Hss; [|reflexivity|reflexivity].
+      apply (parse_code_agree (mkcur o' [] l')).
+    - cbn [ref_spaces rbind]. unfold ret. apply (parse_code_agree (mkcur _ [] _)). }
+  assert (A2 : advances0 (k1 + 0) (skipn k1 buf)
+                 (rbind (rbind (ref_sp Version (k1 + 0) (skipn k1 buf)) (fun _ o l => ref_spaces ms o l))
+                        (fun _ o l => ref_code o l))).
+  { apply rbind_adv0; [apply rbind_adv0; [apply advances_weaken; apply ref_sp_adv|intros; apply ref_spaces_adv]|].
+    intros a o r _. apply advances_weaken. apply ref_code_adv. }
+  destruct (rbind (rbind (ref_sp Version _ _) _) _) as [code o2 l2| |e2]; cbn [agree_nc] in H2;
+    [|rewrite H2; cbn [stage]; destruct rp; reflexivity|rewrite H2; cbn [stage]; destruct rp; reflexivity].
+  destruct H2 as [c2 (H2 & Hp2 & Hr2)]. rewrite H2. cbn [stage].
+  destruct A2 as [k2 (Hk2 & -> & ->)]. rewrite skipn_add in Hr2.
+  (* reason *)
+  pose proof (after_code_agree ms buf (k1 + k2) c2 Hb Hr2) as H3. rewrite Hp2, Hr2 in H3.
+  pose proof (ref_after_code_adv ms (k2 + (k1 + 0)) (skipn (k1 + k2) buf)) as A3.
+  rewrite skipn_add.
+  destruct (ref_after_code ms _ _) as [rs o3 l3| |e3]; cbn [agree] in H3; fold fuel in H3; rewrite H3; cbn [stage];
+    [|destruct rp; reflexivity|destruct rp; reflexivity].
+  destruct A3 as [k3 (Hk3 & -> & ->)]. rewrite skipn_add.
+  (* headers *)
+  rewrite (headers_part (response_hcfg cf) buf _ _ arr Hb). cbn [apos tokrev pre length Nat.add].
+  destruct (ref_headers (response_hcfg cf) (length arr) _ _) as [st hs] eqn:Eh.
+  unfold ref_headers in Eh. apply ref_header_block_facts in Eh as [_ Hmono].
+  destruct st as [o| |e|f]; cbn [shift_status rp_status rp_start rp_headers rs_pversion rs_code rs_reason pick p_version p_code p_reason p_hdrs];
+    try (destruct rp; reflexivity).
+  specialize (Hmono o eq_refl). rewrite firstn_slots_of.
+  replace (k3 + (k2 + (k1 + 0)) + (o - (k3 + (k2 + (k1 + 0))))) with o by lia.
+  destruct rp; reflexivity.
+Qed.
 End Top.
